@@ -32,7 +32,7 @@ def gen_label_value(rng: random.Random) -> Any:
         return rng.random() < 0.5
     if t == "str":
         return rng.choice(["", "a", "True", "false", "12", "1.5", "ünï©ødé ∆ 𝄞", "line\nbreak", "\x00\x7f", " sp ", "null",
-                           "a" * 500, "‮ rtl", "tab\t\"q\"\\"])
+                           "a" * 500, "‮ rtl", "tab\t\"q\"\\", "cut \ud83d", "\udc00x"])
     return rng.choice([b"", b"a", b"\x00", b"\xff\xfe\x00", b"utf8 ok", "ü".encode(), bytes(range(256)), b"=" * 7])
 
 
@@ -60,7 +60,11 @@ def dec_label(v: Any) -> Any:
 
 
 def gen_labels(rng: random.Random, names: List[str], n: int) -> Dict[str, Any]:
-    return {nm: enc_label(gen_label_value(rng)) for nm in rng.sample(names, min(n, len(names)))}
+    out = {nm: enc_label(gen_label_value(rng)) for nm in rng.sample(names, min(n, len(names)))}
+    if rng.random() < 0.08:
+        # a label the worker itself reads (the execution time limit) is a user label like any other
+        out["timeout"] = enc_label(rng.choice([500, "600", 450.5, 10 ** 6]))
+    return out
 
 
 def gen_c09_spec(rng: random.Random) -> Dict[str, Any]:
@@ -85,8 +89,19 @@ def gen_c09_spec(rng: random.Random) -> Dict[str, Any]:
         acts.append("ok")
         op["acts"] = acts if kind != "broker" else []
         ops.append(op)
+    fmt = rng.choice(FORMATS)
+    if fmt == "jsonformatter":
+        # JSONFormatter encodes with pydantic's JSON text encoder, which needs valid UTF-8 (same mechanism as C19's
+        # F9): lone surrogates are generated for the serializer-based formats only
+        def _clean(d: Dict[str, Any]) -> None:
+            for k_, x_ in list(d.items()):
+                if isinstance(x_, str) and any(0xD800 <= ord(ch) <= 0xDFFF for ch in x_):
+                    d[k_] = "cut"
+        _clean(declared)
+        for op_ in ops:
+            _clean(op_.get("labels", {}))
     spec: Dict[str, Any] = {
-        "declared": declared, "ops": ops, "fmt": rng.choice(FORMATS), "use_retry": use_retry, "shared": shared,
+        "declared": declared, "ops": ops, "fmt": fmt, "use_retry": use_retry, "shared": shared,
         "retry_labels": rng.choice(["declared", "op"]),
         "no_result_on_retry": rng.random() < 0.5,
         "A": rng.choice([1, 2, None]),
@@ -342,7 +357,7 @@ class C09(Check):
     thorough_cases = 100000
     assumptions = [
         "msgpack / orjson / cbor2 serializers are not installed in this sandbox and are not exercised",
-        "str labels contain Unicode scalar values only (no lone surrogates); ints stay below CPython's 4300-digit str limit",
+        "lone-surrogate str labels are generated for the serializer-based formats (Proxy+JSON, Proxy+pickle) only: JSONFormatter uses pydantic's JSON text encoder, which rejects them; ints stay below CPython's 4300-digit str limit",
     ]
 
     def cases(self, rng: random.Random, tier: str, shard: int, nshards: int) -> Iterator[Any]:
